@@ -5,7 +5,9 @@ or error, and cancel of a response future racing its CANCEL); the cancellation-r
 frames, publisher/future cancellations, everything the application is told) is compared with the model's replay.
 Oracle (the property): exactly one CANCEL per cancelled stream, nothing delivered to the canceller afterwards, the
 peer's publisher / handler future is cancelled in the section that handles CANCEL, nothing is sent on the stream after.
-That production then actually stops for the library's stream sources is C06 (cancel theorems + correspondence)."""
+Production stops: the library's four stream sources behind a real responder, CANCEL arriving in the same read as the request
+(before any producer task ran) or any number of loop iterations later: the source is not pulled again and nothing more
+is sent (model: C09_source_cancel_* over model/Publisher.v)."""
 import random
 
 from harness import epcheck as E, endpoint as EP
@@ -106,6 +108,11 @@ def correspond(ctx, corr, model_ok):
                 corr.count('local ' + s[0][0])
             elif s[0][0] == 'recv' and s[0][1]['t'] == 'Cancel':
                 corr.count('CANCEL received')
+    for case in source_cases(ctx, ctx.scale(120, 1500)):
+        r = run_cancel_source(*case)
+        corr.oracle_failures.extend(source_oracle(case, r))
+        corr.count('source %s cancelled after %s iterations' % (case[0], 'no' if case[5] == 0 else '1-3' if case[5] < 4 else '4+'))
+        corr.evaluations += 1
     if model_ok:
         E.trace_corr(corr, runs, KEEP, KEYS, 'C09 cancellation projection vs model/Endpoint.v')
     corr.rule = ('legal random histories with cancellation by either side at every moment (60% of local cancels share '
@@ -122,11 +129,16 @@ def search(ctx, budget):
         found.extend(crashed)
         for sc in runs:
             found.extend(f for f in oracle(sc))
+        for case in source_cases(ctx, 60):
+            found.extend(source_oracle(case, run_cancel_source(*case)))
     return found
 
 
 def replay(obj):
     case = obj.get('case') or obj
+    if 'source_case' in case:
+        c = tuple(case['source_case'])
+        return bool(source_oracle(c, run_cancel_source(*c)))
     runs, crashed = E.run_all([case['scenario']])
     return bool(crashed) or any(oracle(sc) for sc in runs)
 
@@ -151,3 +163,133 @@ def known_channel_cancel_inflight():
 
 
 KNOWN = {'KF-C09-channel-cancel-inflight': known_channel_cancel_inflight}
+
+
+# ---------------------------------------------------------------------------------------------
+# production stops: the library's own sources behind a real responder, CANCEL at every moment
+
+SOURCES = ('gen', 'agen', 'rx4', 'rx3')
+
+
+def run_cancel_source(kind, n_items, credit, channel, lenreq, ticks):
+    """A server whose handler answers with a library source over a counting iterable.  The peer sends the request with
+    `credit` and, `ticks` loop iterations later (0 = in the same read, before any producer task has run), CANCEL.
+    Returns what happened after the CANCEL had been handled."""
+    from rsocket.rsocket_server import RSocketServer
+    from rsocket.request_handler import BaseRequestHandler
+    from rsocket.payload import Payload
+    from harness import sim, frames as FR
+    from harness.props import c06
+    loop = sim.new_loop()
+    T = sim.make_transport_class()
+    t = T(lenreq=lenreq)
+    pulled = []
+    box = {}
+
+    def items():
+        for i in range(n_items):
+            pulled.append(i)
+            yield i + 1
+
+    def make():
+        if kind == 'gen':
+            from rsocket.streams.stream_from_generator import StreamFromGenerator
+
+            def g():
+                for v in items():
+                    yield Payload(b'%d' % v), False
+            return StreamFromGenerator(g)
+        if kind == 'agen':
+            from rsocket.streams.stream_from_async_generator import StreamFromAsyncGenerator
+
+            async def g():
+                for v in items():
+                    yield Payload(b'%d' % v), False
+            return StreamFromAsyncGenerator(g)
+        if kind == 'rx4':
+            import reactivex
+            from reactivex import operators as ops
+            from rsocket.reactivex.back_pressure_publisher import observable_to_publisher
+            return observable_to_publisher(reactivex.from_iterable(items()).pipe(ops.map(lambda v: Payload(b'%d' % v))))
+        import rx
+        from rx import operators as ops
+        from rsocket.rx_support.back_pressure_publisher import observable_to_publisher
+        return observable_to_publisher(rx.from_iterable(items()).pipe(ops.map(lambda v: Payload(b'%d' % v))))
+
+    class H(BaseRequestHandler):
+        async def request_stream(self, payload):
+            return make()
+
+        async def request_channel(self, payload):
+            return make(), c06.Rec()
+    try:
+        loop.run(lambda: box.setdefault('s', RSocketServer(t, handler_factory=H)))
+        loop.settle()
+        s = box['s']
+        mark = {}
+        orig = s._handle_next_frame
+
+        async def wrapped(frame, table):
+            r = await orig(frame, table)
+            if type(frame).__name__ == 'CancelFrame':
+                mark['pulled'] = len(pulled)
+                mark['queued'] = s._send_queue.qsize()
+                mark['sent'] = len(t.sent)
+            return r
+        s._handle_next_frame = wrapped
+        first = {'t': 'RequestChannel' if channel else 'RequestStream', 'sid': 1, 'ign': False, 'follows': False,
+                 'n': credit, 'md': b'', 'd': b'x'}
+        if channel:
+            first['complete'] = False
+        t.inject_frame(FR.build(first).serialize())
+        for _ in range(ticks):
+            loop.tick()
+        t.inject_frame(FR.build({'t': 'Cancel', 'sid': 1, 'ign': False}).serialize())
+        unsettled = False
+        try:
+            loop.settle()
+        except RuntimeError:
+            unsettled = True            # still busy after 400 iterations
+        for _ in range(30):
+            loop.tick()
+        wire = [sim.parse_sent(b) for b in t.sent]
+        after = wire[mark.get('sent', 0) + mark.get('queued', 0):] if mark else []
+        return {'handled': bool(mark), 'pulled_after_cancel': len(pulled) - mark.get('pulled', 0),
+                'frames_after_cancel': [(f.get('t'), f.get('sid')) for f in after if f.get('sid') == 1],
+                'pulled_total': len(pulled), 'errors': [f for f in wire if f.get('t') == 'Error'],
+                'registered': 1 in s._stream_control._streams, 'escaped': list(loop.exceptions), 'unsettled': unsettled}
+    finally:
+        loop.finish()
+
+
+def source_cases(ctx, n):
+    rng = ctx.rng
+    out = []
+    for kind in SOURCES:
+        for ticks in (0, 0, 1, 2, 3):
+            out.append((kind, 50, 0x7FFFFFFF, False, False, ticks))
+    while len(out) < n:
+        out.append((rng.choice(SOURCES), rng.choice([1, 5, 50, 400]), rng.choice([1, 2, 7, 100, 0x7FFFFFFF]),
+                    rng.random() < 0.4, rng.random() < 0.5, rng.choice([0, 0, 1, 2, 3, 4, 6, 9, 15])))
+    return out
+
+
+def source_oracle(case, r):
+    kind, n_items, credit, channel, lenreq, ticks = case
+    out = []
+    base = {'what': None, 'source_case': list(case)}
+    if not r['handled']:
+        out.append(dict(base, what='cancel-not-handled'))
+    if r['unsettled']:
+        out.append(dict(base, what='still-busy-400-iterations-after-cancel'))
+    if r['pulled_after_cancel'] > 0:
+        out.append(dict(base, what='source-pulled-after-cancel', count=r['pulled_after_cancel']))
+    if r['frames_after_cancel']:
+        out.append(dict(base, what='frames-after-cancel', frames=r['frames_after_cancel'][:5]))
+    if r['errors']:
+        out.append(dict(base, what='error-frame-on-cancel', frames=repr(r['errors'][:2])[:200]))
+    if r['escaped']:
+        out.append(dict(base, what='exception-escaped-on-cancel', detail=r['escaped'][:2]))
+    if r['registered'] and not channel:
+        out.append(dict(base, what='stream-still-registered-after-cancel'))
+    return out
